@@ -134,7 +134,7 @@ pub fn run(em: &mut Emitter, rng: &mut Rng, thorough: bool) {
                 decode_case(em, mode, &c);
             }
         }
-        for _ in 0..(if thorough { 20000 } else { 2000 }) {
+        for _ in 0..(if thorough { 80_000 } else { 2000 }) {
             let n = rng.range(1, 40) as usize;
             let mut c = rng.bytes(n); if rng.chance(3, 4) { c[0] &= 7; }
             decode_case(em, mode, &c);
